@@ -42,11 +42,14 @@ Mro(sh, c) ==
 \* ---- Parameter types ----------------------------------------------------------------
 SubType(a, b) ==    \* issubclass(a, b)
   a = b \/ b = "Parameter" \/ (a = "Integer" /\ b = "Number")
+\* "Selector": always declared with the objects ["s", "o"]; its constructor takes the first object for the default when none
+\* is given (so its default is never "unspecified"), and computes allow_None from the declaration alone like every type --
+\* but does not turn it on for a None default
 \* "Tuple": a type with a *computed* constraint -- its length, taken from the (merged) default when left unspecified
 HasSlot(ty, slot) == IF slot = "it" THEN ty = "List" ELSE slot \notin {"bounds", "incl", "nmeta"} \/ ty \in {"Number", "Integer"}
 TypeDefault(ty, slot) ==
   CASE slot = "default" -> (CASE ty = "Parameter" -> "None" [] ty = "Number" -> "0.0" [] ty = "Integer" -> "0" [] ty = "String" -> ""
-                              [] ty = "Tuple" -> "t2" [] ty = "List" -> "lempty")
+                              [] ty = "Tuple" -> "t2" [] ty = "List" -> "lempty" [] ty = "Selector" -> "s")
     [] slot = "it" -> "None"              \* item_type: "None" = any type (also when given explicitly), "int", "str"
     [] slot = "bounds" -> "None"
     [] slot = "incl" -> "ii"
@@ -68,15 +71,17 @@ ValidVal(ty, v, b, incl) ==
   CASE ty = "Parameter" -> TRUE
     [] ty = "Number" -> IsNumTok(v) /\ InBounds(v, b, incl)
     [] ty = "Integer" -> v \in {"0", "1", "5"} /\ InBounds(v, b, incl)
-    [] ty = "String" -> v \in {"s", ""}
+    [] ty = "String" -> v \in {"s", "o", ""}
     [] ty = "Tuple" -> v \in {"t2", "t3"}         \* (0, 0) and (1, 2, 3): any tuple, the length follows the default
     [] ty = "List" -> v \in {"lempty", "l1", "ls"}     \* [], [1], ["s"]: the item type is checked separately (ItemOK)
+    [] ty = "Selector" -> v \in {"s", "o"}
 
 ItemOK(it, v) == it = "None" \/ v = "lempty" \/ (it = "int" /\ v = "l1") \/ (it = "str" /\ v = "ls")
 \* the constructor of a declaration validates its own (or the type's) default against its own bounds
 \* allow_None is computed by the constructor from the declaration alone: True if the default the
 \* constructor sees (its own, else the type's) is None, else the value given, else False
-OwnAN(d) == IF d.default = "None" \/ (d.default = "U" /\ TypeDefault(d.ty, "default") = "None") THEN TRUE ELSE d.an = "T"
+OwnAN(d) == IF d.ty = "Selector" THEN d.an = "T"
+            ELSE IF d.default = "None" \/ (d.default = "U" /\ TypeDefault(d.ty, "default") = "None") THEN TRUE ELSE d.an = "T"
 Constructible(d) ==
   LET v == IF d.default = "U" THEN TypeDefault(d.ty, "default") ELSE d.default
       b == IF HasSlot(d.ty, "bounds") /\ d.bounds # "U" THEN d.bounds ELSE "None"
